@@ -175,9 +175,17 @@ pub fn oracle_defect(tc: &TypeCorpus, cons: Cons, d: Defect, seed: u64) -> Resul
     let n = tc.number;
     let mut rng = crate::rng::Rng::new(seed);
     let table = cons.table();
-    // a valid starting point
-    let ng = 1 + rng.below(table.len().min(4) as u64) as usize;
-    let ns = 2 + rng.below((64 / ng).min(12) as u64 - 1) as usize;
+    // a valid starting point: small, or (one time in three, for the defects that keep the list lengths) a full matrix of
+    // exactly 64 cells such as 32x2, 16x4, 8x8
+    let full_ok = matches!(d, Defect::Sat0 | Defect::Sat65 | Defect::Sat255 | Defect::UnknownSignal | Defect::DuplicateCell) && table.len() >= 2;
+    let (ng, ns) = if full_ok && rng.below(3) == 0 {
+        let opts: Vec<usize> = [2usize, 4, 8, 16].iter().copied().filter(|g| *g <= table.len()).collect();
+        let ng = opts[rng.below(opts.len() as u64) as usize];
+        (ng, 64 / ng)
+    } else {
+        let ng = 1 + rng.below(table.len().min(4) as u64) as usize;
+        (ng, 2 + rng.below((64 / ng).min(12) as u64 - 1) as usize)
+    };
     let mut sats: Vec<u8> = (1..=64).collect();
     rng.shuffle(&mut sats);
     sats.truncate(ns);
@@ -242,8 +250,19 @@ pub fn oracle_defect(tc: &TypeCorpus, cons: Cons, d: Defect, seed: u64) -> Resul
             want = "DuplicateSatellite";
         }
         Defect::DuplicateCell => {
-            let c = cells[rng.below(cells.len() as u64) as usize];
-            cells.push(c);
+            let k = rng.below(cells.len() as u64) as usize;
+            let c = cells[k];
+            if cells.len() >= 64 || (ng >= 2 && rng.below(2) == 0) {
+                // a copy written over another row (the list keeps its length; with ng >= 2 and ns >= 2 every satellite
+                // and signal is still used by some other cell, so the duplicate is the only defect)
+                let mut j = rng.below(cells.len() as u64) as usize;
+                if j == k {
+                    j = (j + 1) % cells.len();
+                }
+                cells[j] = c;
+            } else {
+                cells.push(c);
+            }
             want = "DuplicateSatelliteSignal";
         }
         Defect::SatelliteWithoutCells => {
